@@ -8,7 +8,7 @@ CONSTANTS
   OneShotLate = FALSE
   Masks <- OnlyR
   OpKinds <- OpsInit
-  MaxOps = 2
+  MaxOps = 1
   MaxPass = 1
 SPECIFICATION MCSpec
 INVARIANTS TypeOK OnlyEnabledFires ReadyMatch OneShotDisabledInCallback NoUseOfFreed NoException RefCountsExact PoolSane
